@@ -246,9 +246,11 @@ class Recognizer(IRecognizer):
                     message = '{}Expected a string matching {}'.format(
                         loc_str, type_to_desc(expected_type))
                     return set(), (message, [])
-                else:
-                    # don't read this as a bool but as a string
-                    node.tag = 'tag:yaml.org,2002:str'
+                # A bool here is the name of a member that happens to look
+                # like a boolean. The node is not modified here, so that
+                # the result does not depend on what was tried before;
+                # Loader.__process_node() makes it a string once it is
+                # certain that this is an enum.
             elif is_string_like(expected_type):
                 if (not isinstance(node, yaml.ScalarNode)
                         or node.tag != 'tag:yaml.org,2002:str'):
